@@ -335,11 +335,34 @@ def check_C09(ctx, replay=None):
         ev = info.get("event", {})
         what = "rest" if isinstance(ev, dict) and ev.get("e") == "rest" else "record"
         add_violation(ctx, "c09:trace-rejected:%s" % what, info, {"trace": keep, "line": info.get("line")})
+    binding = []
+    states = sum(r.distinct for r in ctx.tlc_runs)
+    transitions = sum(r.generated for r in ctx.tlc_runs)
+    if accepted and not replay:
+        # binding self-test: the same trace with one delivery removed (a gap), or one delivery repeated, must be rejected
+        lines = open(trace).read().splitlines()
+        recs = [i for i, ln in enumerate(lines) if json.loads(ln).get("e") == "record"]
+        tampered = {}
+        if len(recs) >= 3:
+            k = recs[len(recs) // 2]
+            tampered["gap"] = lines[:k] + lines[k + 1:]
+            tampered["duplicate"] = lines[:k + 1] + [lines[k]] + lines[k + 1:]
+        for name, tl in tampered.items():
+            tp = ctx.path("subs-trace-%s.ndjson" % name)
+            with open(tp, "w") as f:
+                f.write("\n".join(tl) + "\n")
+            tr = run_tlc(ctx, "TraceSub", "TraceSub.cfg", workers=1, deque=True, timeout=1800, xmx="6g", env={"TRACE": tp},
+                         tags=(), coverage=False, expect_error=True)
+            if tr.ok:
+                raise core.ToolError("binding self-test failed: the recorded subscription trace with a %s is still accepted "
+                                     "by TraceSub.tla" % name)
+            binding.append(name)
     cov = {
-        "states": sum(r.distinct for r in ctx.tlc_runs), "transitions": sum(r.generated for r in ctx.tlc_runs),
+        "states": states, "transitions": transitions,
         "traces_validated_against_impl": hr.stats.get("scenarios", 0), "samples": hr.stats.get("samples", []),
         "evaluations": hr.stats["evaluations"], "distinct_nontrivial": hr.stats["distinct_classes"],
         "trace_lines_validated": nlines, "trace_accepted": accepted, "records_delivered": hr.stats.get("records"),
+        "binding_selftests_rejected": binding,
         "rule": "Subscription.tla (watermark advance and broadcast as separate steps, bounded ring with lag, history read in "
                 "batches with the stop at the first unconfirmed commit, hand-over to the live ring with de-duplication, "
                 "acknowledgement window) is explored exhaustively for partition and stream matchers, batch sizes 1-2, ring 2, window "
